@@ -84,6 +84,8 @@ class Generated:
     assumptions: list[str]
     vac_fns: list[str]
     line_to_oid: dict[int, str] = field(default_factory=dict)
+    blocks: list = field(default_factory=list)      # (block key, first line, last line) of every extracted block in main_text
+    excluded: list = field(default_factory=list)    # (block key, reason, [obligation ids], [props]) - blocks left out of this generation
 
 
 def _parse_block(lines: list[str]):
@@ -243,7 +245,12 @@ def _vac_probe(fn_text_with_contract: str, name: str, requires: list[str], in_im
     return body
 
 
-def generate(template_path: str, snapshot: str) -> Generated:
+def generate(template_path: str, snapshot: str, exclude: dict | None = None) -> Generated:
+    """exclude: {block key: reason} - extraction blocks to leave out (isolation of a block that cannot be read any more, so that the
+    rest of the unit is still decided; the left-out block's obligations are reported as undecided)."""
+    exclude = exclude or {}
+    blocks: list = []
+    excluded: list = []
     unit = os.path.splitext(os.path.basename(template_path))[0]
     tl = open(template_path).read().split("\n")
     out_main: list[str] = []
@@ -262,6 +269,112 @@ def generate(template_path: str, snapshot: str) -> Generated:
 
     def cur_line() -> int:
         return sum(s.count("\n") + 1 for s in out_main) + 1
+
+    def _emit_block(d, file, item, ln):
+        if file not in sources:
+            p = os.path.join(snapshot, file)
+            if not os.path.exists(p):
+                raise ExtractError(f"anchor lost: {file} does not exist")
+            sources[file] = Source(file, open(p).read())
+        src = sources[file]
+        a, b = src.locate(item)
+        text = src.text_of(a, b)
+        text, f = apply_drop_rules(text, file, keep_vis=d["keepvis"])
+        fired.update(f)
+        if d["fragment"]:
+            text = fragment(text, file, *d["fragment"])
+            if d.get("splitarms"):
+                text, nsp = split_or_guard_arms(text, file)
+                fired.add(f"R7 ({nsp} or-pattern+guard arms split)")
+            if d.get("wrapper"):
+                # the fragment becomes the body of a generated wrapper fn whose parameters are the fragment's free locals;
+                # only the wrapper's signature, local initialisation and result expression come from the template
+                text = (d["wrapper"] + " {\n        " + d.get("wrapper_pre", "") + "\n        " + text + "\n        "
+                        + d.get("wrapper_post", "") + "\n    }")
+                d["fragment"] = None
+        for (x, y) in d["subst"]:
+            if x not in text:
+                raise ExtractError(f"{file} | {item}: anchor lost: substitution source `{x}` not present")
+            text = text.replace(x, y)
+            substs.append(f"{file} | {item}: `{x}` => `{y}`")
+        indent = re.match(r"\s*", ln).group(0)
+        if d["constensures"]:
+            # R4 for constants: `const N: T = E;` -> `exec const N: T ensures <clauses> { E }`
+            m = re.search(r"\bconst\s+([A-Za-z_0-9]+)\s*:\s*(.*?)\s*=\s*(.*);\s*$", text, re.S)
+            if not m:
+                raise ExtractError(f"{file} | {item}: anchor lost: not a `const N: T = E;` item")
+            vis = "pub " if re.match(r"\s*pub\b", text) else ""
+            cname = m.group(1)
+            base = cur_line()
+            hdr = f"{vis}exec const {cname}: {m.group(2)}\n    ensures\n"
+            lines_ = hdr
+            info = FnInfo(name=cname, qual=f"{file} | {item}", props=d["props"], line_lo=base, line_hi=0,
+                          safety_id=f"{unit}.{cname}.safety")
+            init = m.group(3)
+            arg = init[init.find("(") + 1:init.rfind(")")] if "(" in init else init
+            d["constensures"] = [(o, c.replace("$ARG", "(" + arg + ")")) for (o, c) in d["constensures"]]
+            for oid, clause in d["constensures"]:
+                line_to_oid[base + lines_.count("\n")] = oid
+                obligations.append(Obligation(oid, d["props"], "ensures", clause, cname, info.qual, base + lines_.count("\n")))
+                lines_ += f"        {clause},\n"
+            lines_ += "{ " + m.group(3) + " }"
+            info.line_hi = base + lines_.count("\n")
+            fns.append(info)
+            block_txt = "\n".join(indent + t if t.strip() else t for t in lines_.split("\n"))
+            out_main.append(block_txt)
+            out_vac.append(block_txt)
+            return
+        if d["raw"] or d["fragment"]:
+            rendered = text
+            block_txt = "\n".join(indent + t if t.strip() else t for t in rendered.split("\n"))
+            if d["oblig"]:
+                oid, oprops, otxt = d["oblig"]
+                base = cur_line()
+                nm = item.replace(" ", "_")
+                info = FnInfo(name=nm, qual=f"{file} | {item}", props=oprops, line_lo=base,
+                              line_hi=base + block_txt.count("\n"), safety_id=oid)
+                fns.append(info)
+                obligations.append(Obligation(oid, oprops, "impl", otxt, nm, info.qual, base))
+            out_main.append(block_txt)
+            out_vac.append(block_txt)
+            return
+        props = d["props"]
+        name = d["rename"] or _fn_name(text)
+        c = Contract(requires=d["requires"], ensures=[(o, t) for (o, _, t) in d["ensures"]], prologue=d["prologue"],
+                     loops={n: {"invariant": [(o, t) for (o, _, t) in lp["invariant"]], "decreases": lp["decreases"]}
+                            for n, lp in d["loops"].items()},
+                     rename=d["rename"], result=d["result"], attrs=d["attrs"])
+        r = splice_contract(text, file, c)
+        base = cur_line()
+        block_txt = "\n".join(indent + t if t.strip() else t for t in r.text.split("\n"))
+        nlines = block_txt.count("\n") + 1
+        info = FnInfo(name=name, qual=f"{file} | {item}", props=props, line_lo=base, line_hi=base + nlines - 1)
+        prop_of = {o: (p if p is not None else props) for (o, p, _) in d["ensures"]}
+        txt_of = {o: t for (o, _, t) in d["ensures"]}
+        for n, lp in d["loops"].items():
+            for (o, p, t) in lp["invariant"]:
+                prop_of[o] = props
+                txt_of[o] = f"loop#{n} invariant: {t}"
+        for rel, oid in r.line_ids:
+            line_to_oid[base + rel] = oid
+            obligations.append(Obligation(oid, prop_of[oid], "invariant" if txt_of[oid].startswith("loop#") else "ensures",
+                                          txt_of[oid], name, info.qual, base + rel))
+        if d["safety"]:
+            info.safety_id = f"{unit}.{name}.safety"
+            obligations.append(Obligation(info.safety_id, props, "safety",
+                                          "no panic: arithmetic overflow, index bounds, unwrap, callee preconditions, termination of annotated loops",
+                                          name, info.qual, base))
+        fns.append(info)
+        out_main.append(block_txt)
+        # vac variant: body not re-verified
+        out_vac.append(indent + "#[verifier::external_body]\n" + block_txt)
+        if d["requires"] and not d["novac"]:
+            probe = _vac_probe(r.text, name, d["requires"], True)
+            if probe is None:
+                raise ExtractError(f"{file} | {item}: cannot build requires-satisfiability probe; add `novac` with a reason")
+            out_vac.append("\n".join(indent + t if t.strip() else t for t in probe.split("\n")))
+            vac_fns.append(f"verif_vac_{name}")
+        return
 
     while i < len(tl):
         ln = tl[i]
@@ -296,109 +409,26 @@ def generate(template_path: str, snapshot: str) -> Generated:
                 i += 1
             i += 1
             d = _parse_block(block)
-            if file not in sources:
-                p = os.path.join(snapshot, file)
-                if not os.path.exists(p):
-                    raise ExtractError(f"anchor lost: {file} does not exist")
-                sources[file] = Source(file, open(p).read())
-            src = sources[file]
-            a, b = src.locate(item)
-            text = src.text_of(a, b)
-            text, f = apply_drop_rules(text, file, keep_vis=d["keepvis"])
-            fired.update(f)
-            if d["fragment"]:
-                text = fragment(text, file, *d["fragment"])
-                if d.get("splitarms"):
-                    text, nsp = split_or_guard_arms(text, file)
-                    fired.add(f"R7 ({nsp} or-pattern+guard arms split)")
-                if d.get("wrapper"):
-                    # the fragment becomes the body of a generated wrapper fn whose parameters are the fragment's free locals;
-                    # only the wrapper's signature, local initialisation and result expression come from the template
-                    text = (d["wrapper"] + " {\n        " + d.get("wrapper_pre", "") + "\n        " + text + "\n        "
-                            + d.get("wrapper_post", "") + "\n    }")
-                    d["fragment"] = None
-            for (x, y) in d["subst"]:
-                if x not in text:
-                    raise ExtractError(f"{file} | {item}: anchor lost: substitution source `{x}` not present")
-                text = text.replace(x, y)
-                substs.append(f"{file} | {item}: `{x}` => `{y}`")
-            indent = re.match(r"\s*", ln).group(0)
-            if d["constensures"]:
-                # R4 for constants: `const N: T = E;` -> `exec const N: T ensures <clauses> { E }`
-                m = re.search(r"\bconst\s+([A-Za-z_0-9]+)\s*:\s*(.*?)\s*=\s*(.*);\s*$", text, re.S)
-                if not m:
-                    raise ExtractError(f"{file} | {item}: anchor lost: not a `const N: T = E;` item")
-                vis = "pub " if re.match(r"\s*pub\b", text) else ""
-                cname = m.group(1)
-                base = cur_line()
-                hdr = f"{vis}exec const {cname}: {m.group(2)}\n    ensures\n"
-                lines_ = hdr
-                info = FnInfo(name=cname, qual=f"{file} | {item}", props=d["props"], line_lo=base, line_hi=0,
-                              safety_id=f"{unit}.{cname}.safety")
-                init = m.group(3)
-                arg = init[init.find("(") + 1:init.rfind(")")] if "(" in init else init
-                d["constensures"] = [(o, c.replace("$ARG", "(" + arg + ")")) for (o, c) in d["constensures"]]
-                for oid, clause in d["constensures"]:
-                    line_to_oid[base + lines_.count("\n")] = oid
-                    obligations.append(Obligation(oid, d["props"], "ensures", clause, cname, info.qual, base + lines_.count("\n")))
-                    lines_ += f"        {clause},\n"
-                lines_ += "{ " + m.group(3) + " }"
-                info.line_hi = base + lines_.count("\n")
-                fns.append(info)
-                block_txt = "\n".join(indent + t if t.strip() else t for t in lines_.split("\n"))
-                out_main.append(block_txt)
-                out_vac.append(block_txt)
+            bkey = f"{file} | {item}" + (f" | fragment {d['fragment'][0]} {d['fragment'][1]}" if d["fragment"] else "")
+            b_oids = [o for (o, _, _) in d["ensures"]] + [o for lp in d["loops"].values() for (o, _, _) in lp["invariant"]] \
+                + [o for (o, _) in d["constensures"]] + ([d["oblig"][0]] if d["oblig"] else [])
+            b_props = sorted(set(d["props"]) | {pp for (_, p2, _) in d["ensures"] if p2 for pp in p2} | (set(d["oblig"][1]) if d["oblig"] else set()))
+            if bkey in exclude:
+                excluded.append((bkey, exclude[bkey], b_oids, b_props))
                 continue
-            if d["raw"] or d["fragment"]:
-                rendered = text
-                block_txt = "\n".join(indent + t if t.strip() else t for t in rendered.split("\n"))
-                if d["oblig"]:
-                    oid, oprops, otxt = d["oblig"]
-                    base = cur_line()
-                    nm = item.replace(" ", "_")
-                    info = FnInfo(name=nm, qual=f"{file} | {item}", props=oprops, line_lo=base,
-                                  line_hi=base + block_txt.count("\n"), safety_id=oid)
-                    fns.append(info)
-                    obligations.append(Obligation(oid, oprops, "impl", otxt, nm, info.qual, base))
-                out_main.append(block_txt)
-                out_vac.append(block_txt)
+            blk_line0 = cur_line()
+            marks = (len(out_main), len(out_vac), len(obligations), len(fns), len(vac_fns), dict(line_to_oid))
+            try:
+                _emit_block(d, file, item, ln)
+            except ExtractError as e:
+                if d["raw"] and not d["oblig"] and not d["fragment"]:
+                    raise           # a type/const declaration the rest of the unit depends on: cannot isolate
+                del out_main[marks[0]:], out_vac[marks[1]:], obligations[marks[2]:], fns[marks[3]:], vac_fns[marks[4]:]
+                line_to_oid.clear()
+                line_to_oid.update(marks[5])
+                excluded.append((bkey, f"extraction: {e}", b_oids, b_props))
                 continue
-            props = d["props"]
-            name = d["rename"] or _fn_name(text)
-            c = Contract(requires=d["requires"], ensures=[(o, t) for (o, _, t) in d["ensures"]], prologue=d["prologue"],
-                         loops={n: {"invariant": [(o, t) for (o, _, t) in lp["invariant"]], "decreases": lp["decreases"]}
-                                for n, lp in d["loops"].items()},
-                         rename=d["rename"], result=d["result"], attrs=d["attrs"])
-            r = splice_contract(text, file, c)
-            base = cur_line()
-            block_txt = "\n".join(indent + t if t.strip() else t for t in r.text.split("\n"))
-            nlines = block_txt.count("\n") + 1
-            info = FnInfo(name=name, qual=f"{file} | {item}", props=props, line_lo=base, line_hi=base + nlines - 1)
-            prop_of = {o: (p if p is not None else props) for (o, p, _) in d["ensures"]}
-            txt_of = {o: t for (o, _, t) in d["ensures"]}
-            for n, lp in d["loops"].items():
-                for (o, p, t) in lp["invariant"]:
-                    prop_of[o] = props
-                    txt_of[o] = f"loop#{n} invariant: {t}"
-            for rel, oid in r.line_ids:
-                line_to_oid[base + rel] = oid
-                obligations.append(Obligation(oid, prop_of[oid], "invariant" if txt_of[oid].startswith("loop#") else "ensures",
-                                              txt_of[oid], name, info.qual, base + rel))
-            if d["safety"]:
-                info.safety_id = f"{unit}.{name}.safety"
-                obligations.append(Obligation(info.safety_id, props, "safety",
-                                              "no panic: arithmetic overflow, index bounds, unwrap, callee preconditions, termination of annotated loops",
-                                              name, info.qual, base))
-            fns.append(info)
-            out_main.append(block_txt)
-            # vac variant: body not re-verified
-            out_vac.append(indent + "#[verifier::external_body]\n" + block_txt)
-            if d["requires"] and not d["novac"]:
-                probe = _vac_probe(r.text, name, d["requires"], True)
-                if probe is None:
-                    raise ExtractError(f"{file} | {item}: cannot build requires-satisfiability probe; add `novac` with a reason")
-                out_vac.append("\n".join(indent + t if t.strip() else t for t in probe.split("\n")))
-                vac_fns.append(f"verif_vac_{name}")
+            blocks.append((bkey, blk_line0, cur_line() - 1))
             continue
         # ordinary template line
         if pending_oblig and re.search(r"\bfn\s+([A-Za-z_0-9]+)", s):
@@ -436,7 +466,8 @@ def generate(template_path: str, snapshot: str) -> Generated:
     vac_text = vac_text[:idx] + canary + vac_text[idx:]
     vac_fns.append("verif_canary_must_fail")
     assumptions = scan_assumptions(main_text)
-    return Generated(unit, main_text, vac_text, obligations, fns, sorted(fired), substs, assumptions, vac_fns, line_to_oid)
+    return Generated(unit, main_text, vac_text, obligations, fns, sorted(fired), substs, assumptions, vac_fns, line_to_oid,
+                     blocks, excluded)
 
 
 def scan_assumptions(text: str) -> list[str]:
